@@ -17,7 +17,7 @@ for d in sorted(glob.glob(f"{ROOT}/seeded/C*-m*")):
             sigs += v["signatures"][:2]
     allc = m.get("all_checks", {})
     others = sorted(c for c, v in allc.items() if v == 1 and c != m["property"])
-    rows.append((m["id"], ", ".join(files), need, ", ".join(m["caught_by"]) or "MISSED", "; ".join(sigs[:2]), ", ".join(others), m.get("history", "")))
+    rows.append((m["id"], ", ".join(files), need, ", ".join(m["caught_by"]) or ("not judged (see history)" if m.get("not_judged") else "MISSED"), "; ".join(sigs[:2]), ", ".join(others), m.get("history", "")))
 out = ["# Seeded breaking changes", "",
        "Each directory holds `patch.diff` (a change to /repo that still compiles and passes the 84 pinned tests), `demo.rs` (an integration test that fails with the change and passes without it) and `meta.json` (what it needs to manifest, what was run, which checks fire). All were written by independent sub-agents that saw only the property text and a scratch worktree (prompt: `AGENT_PROMPT.tmpl`), confirmed in a scratch worktree, then applied to /repo, checked with `./check <id> quick` and reverted. None is ever committed in /repo.", "",
        "| id | file(s) | what / trigger (from the author's notes) | caught by (quick) | first signatures | also caught by | history |", "|---|---|---|---|---|---|---|"]
